@@ -474,6 +474,40 @@ theorem toggle_race_fresh (n : Bool) (c0 : Option Bool) (hc0 : c0 = none ∨ c0 
     have : c = s.flag := by simpa using hc
     rw [this]
 
+/-- INVALIDATE ORDERED.  The same machine is the memo of `cached` under `enable_queries()`: the
+    toggle is *write `_queries_enabled`; `_invalidate_cache()` = take the decorator's lock, `cache.clear()`,
+    release* (order and locking read off the AST of `enable_queries` and of `cached`'s `invalidate`), the
+    reader is an in-flight first call (take the lock, miss, run the body — which reads the flag —,
+    `setdefault`, release).  For **every** interleaving: once `enable_queries()` has returned, the memo is
+    empty or holds a value computed with queries enabled — a result obtained by a body that saw them
+    disabled is never in the cache after the invalidation has completed, however the two overlapped. -/
+theorem invalidate_ordered (c0 : Option Bool) (hc0 : c0 = none ∨ c0 = some false) (sched : List Race.Who) :
+    let s := Race.rrun (Race.decode Generated.cachedInvalSteps) true (Race.RSt.init true c0) sched
+    s.pc = 4 → s.flag = true ∧ (s.cache = none ∨ s.cache = some true) := by
+  have hd : Race.decode Generated.cachedInvalSteps = Race.canonical := by decide
+  rw [hd]
+  have hI := Race.rinv_run true _ sched (Race.rinv_init true c0 (by simpa using hc0))
+  generalize Race.rrun Race.canonical true (Race.RSt.init true c0) sched = s at hI
+  dsimp only
+  intro hpc
+  obtain ⟨_, _, _, hf, _, hc⟩ := hI
+  rw [hpc] at hf hc
+  have hf' : s.flag = true := by simpa using hf
+  refine ⟨hf', ?_⟩
+  cases hcc : s.cache with
+  | none => left; rfl
+  | some c =>
+    right; rw [hcc] at hc
+    have : c = s.flag := by simpa using hc
+    rw [this, hf']
+
+/-- without the lock around `cache.clear()` the in-flight body stores its disabled-state result after
+    the clear (the schedule the interleaving search reproduces on the real code) -/
+theorem invalidate_unlocked_counterexample :
+    let s := Race.rrun [.setFlag, .clear] true (Race.RSt.init true none)
+      [.R, .R, .R, .T, .T, .R, .R]
+    s.rpc = .done ∧ s.flag = true ∧ s.cache = some false := by decide
+
 /-- the order matters: with *clear first, flag last* a reader in the gap re-fills the cache
     under the old setting (the schedule the harness' interleaving search reproduces) -/
 theorem toggle_race_counterexample :
